@@ -34,12 +34,17 @@ def main():
         # The harness never crashes on the unchanged tree (soaked over many seeds).  An exception that comes out of the
         # implementation (a frame inside the package, also through a worker's remote traceback) where the harness expects an
         # answer means the code no longer behaves as the model says: the correspondence is broken, no failing input isolated.
-        chain = tb + ''.join(str(getattr(x, '__cause__', '') or '') for x in (e,))
-        if '/qce_circuit/' in chain or 'qce_circuit.' in chain:
+        # Any other exception while the check digests what the implementation answered (an assertion of the harness about the
+        # code's tables, a parse of an unexpected answer, …) equally means "the code no longer behaves as the machinery was
+        # validated against" — except failures of the machine itself (I/O, memory, time-outs), which stay exit 2.
+        import subprocess
+        infra = isinstance(e, (OSError, MemoryError, subprocess.TimeoutExpired, KeyboardInterrupt, common.LeanFailure))
+        if not infra:
             oc = common.Outcome(a.prop)
             oc.violation({'property': a.prop, 'kind': 'correspondence-broken',
-                          'unchecked': 'the implementation raised where the model answers; correspondence run aborted',
-                          'traceback': chain[-4000:]}, found_input=False)
+                          'unchecked': 'the check could not digest what the implementation answered (exception below); '
+                                       'correspondence run aborted',
+                          'traceback': tb[-4000:]}, found_input=False)
             sys.exit(oc.emit())
         sys.exit(2)
     sys.exit(rc)
